@@ -111,7 +111,7 @@ def plan_server(op: dict, doc: dict, c: inst.Canary, prop: str, literal_enums: b
         if b["fault"] == "cancel":
             b["latency"] = r.choice([0.5, 2.0])
             b["cancel_at"] = b["latency"] / 2
-    documented = [rs for rs in op["responses"]]
+    documented = [rs for rs in op["responses"] if not rs.get("noise")]  # noise responses are declared, never served
     undoc_p = 0.3 if prop == "C04" else 0.15
     if documented and r.random() >= undoc_p:
         rs = r.choice(documented)
@@ -134,7 +134,7 @@ def plan_server(op: dict, doc: dict, c: inst.Canary, prop: str, literal_enums: b
             data = c.bytes_()
             b.update(media_type=rs["media_type"], content_hex=data.hex(), J={"__bytes__": data.hex()}, source="bytes")
     else:
-        doc_statuses = {rs["status"] for rs in documented}
+        doc_statuses = {rs["status"] for rs in op["responses"]}
         pool = [s for s in [203, 206, 302, 304, 402, 403, 405, 410, 418, 429, 501, 502, 504] if s not in doc_statuses]
         if r.random() < 0.35:
             pool = NON_ENUM_STATUSES
@@ -578,6 +578,9 @@ class World:
             for k, v_ in (b.get("headers") or {}).items():
                 if val.headers.get(k) != v_:
                     self.v("C04", "raw-headers", "headers", f"Response.headers[{k!r}] = {val.headers.get(k)!r}, sent {v_!r}")
+                # the RAW headers: HTTP field names are case-insensitive, a copy into a plain dict loses that
+                elif val.headers.get(k.title()) != v_ or val.headers.get(k.upper()) != v_:
+                    self.v("C04", "raw-headers", "case-insensitivity", f"Response.headers is not the raw header object: lookup of {k.title()!r} gives {val.headers.get(k.title())!r}, of {k!r} gives {v_!r} (type {type(val.headers).__name__})")
         except Exception as e:  # noqa: BLE001
             self.v("C04", "raw-fields-unreadable", type(e).__name__, f"{prep['opid']}: {type(e).__name__}: {e}")
 
